@@ -887,6 +887,12 @@ def run(ck: common.Check):
     ck.extra["s_oracle_evaluations"] = n_spec
     ck.extra["hypotheses_of_theorems_on_generated_documents"] = wf_hist
     ck.extra["unmodelled_outcomes_skipped"] = n_unmodelled
+    ck.extra["explanation"] = (
+        "PARTIAL for XML parsing: the theorems are about Geff.TrackMate.convert on abstract documents (graph construction, "
+        "typing by isint, TRACK_ID stamping with its assertion, the two discard rules, metadata consistency, property columns "
+        "with missing flags, lineage validity); lxml's streaming iterparse cursor logic, Python's int()/float() lexing and the "
+        "zarr write/read are exercised by the correspondence on rendered documents (and the repo's FakeTracks.xml converted "
+        "as it is), not modelled. Declared-but-valueless features are not stored (nothing to store).")
     ck.assumptions += [
         "lxml iterparse event/cursor handling (_get_attributes_metadata, _get_filtered_tracks_ID, …) is exercised through "
         "rendered documents, not modelled: partial",
